@@ -50,15 +50,23 @@ Qed.
 
 Definition evb (e : sev) (s : svstate) : bool := bool_decide (e ∈ v_trace s).
 
+Definition net_openb (s : svstate) : bool :=
+  thr_all s (λ _ t, match st_op t with SShutdown => bool_decide (st_pc t = VShFlag) || bool_decide (st_pc t = VShNet) | _ => true end).
+Lemma net_openb_sound s : net_openb s = true → net_open s.
+Proof.
+  intros H tid t Ht Hop. apply (thr_all_sound _ _ H) in Ht. rewrite Hop in Ht.
+  apply orb_prop in Ht as [Ht|Ht]; apply bool_decide_eq_true in Ht; auto.
+Qed.
+
 Definition sitem_okb (s : svstate) (it : sitem) : bool :=
   match it with
   | VCall tid op =>
       match op with
       | STry sid _ k z lt | SLock sid _ k z lt =>
           thr_all s (λ _ t', negb (bool_decide (op_key' (st_op t') = Some k))) && evb (SvConnect sid) s && negb (evb (SvConnEnd sid) s)
-          && match lt with Some t => 0 <=? t | None => true end
-      | SUnlock _ k => presentedb s k
-      | SRenew _ k lt => presentedb s k && (0 <? lt)
+          && match lt with Some t => 0 <=? t | None => true end && net_openb s
+      | SUnlock _ k => presentedb s k && net_openb s
+      | SRenew _ k lt => presentedb s k && (0 <? lt) && net_openb s
       | _ => true
       end
   | VConnect sid => negb (evb (SvConnect sid) s)
@@ -83,14 +91,14 @@ Lemma sitem_okb_sound s it : sitem_okb s it = true → sitem_ok s it.
 Proof.
   destruct it as [tid op| | | | | |]; simpl; try done.
   - destruct op; simpl; try done.
-    + intros H. repeat (apply andb_prop in H as [H ?]). split_and!; [|by apply evb_true|by apply evb_false|].
+    + intros H. repeat (apply andb_prop in H as [H ?]). split_and!; [|by apply evb_true|by apply evb_false| |by apply net_openb_sound].
       * intros tid' t' Ht. pose proof (thr_all_sound _ _ H _ _ Ht) as Hx. simpl in Hx. by case_bool_decide.
       * intros t ->. lia.
-    + intros H. repeat (apply andb_prop in H as [H ?]). split_and!; [|by apply evb_true|by apply evb_false|].
+    + intros H. repeat (apply andb_prop in H as [H ?]). split_and!; [|by apply evb_true|by apply evb_false| |by apply net_openb_sound].
       * intros tid' t' Ht. pose proof (thr_all_sound _ _ H _ _ Ht) as Hx. simpl in Hx. by case_bool_decide.
       * intros t ->. lia.
-    + apply presentedb_sound.
-    + intros H. apply andb_prop in H as [H ?]. split; [by apply presentedb_sound|lia].
+    + intros H. apply andb_prop in H as [H ?]. split; [by apply presentedb_sound|by apply net_openb_sound].
+    + intros H. repeat (apply andb_prop in H as [H ?]). split_and!; [by apply presentedb_sound|lia|by apply net_openb_sound].
   - (* VCancel: the wait timeout only while the Lock call is inside lockMgr.Lock (sitem_ok, corrected by svinv) *)
     intros H. apply orb_prop in H as [H|H]; [left; by apply bool_decide_eq_true in H|right].
     apply andb_prop in H as [H1 H2]. apply bool_decide_eq_true in H1. split; [done|].
@@ -117,13 +125,10 @@ Definition w_n : str := [x6e].
 Definition w_k : str := [x6b].
 Definition leak_sched : list sitem :=
   [VConnect w_sid; VCall 1 (STry w_sid w_n w_k 1 None); VRun 1;      (* granted, before AddLock *)
-   VConnEnd w_sid; VRun 1000; VRun 1000; VRun 1000;                  (* DestroySession: flag, destroy (no entry), loop over [] -> VEnd *)
+   VConnEnd w_sid; VRun 1000; VRun 1000;                             (* DestroySession: flag, destroy (nothing listed: it returns) *)
    VRun 1].                                                          (* AddLock re-creates the session entry; locked=true *)
 
-Theorem C06_leak_refuted : ∃ cfg s tid t sid tid' t' n k z,
-  vreach cfg s ∧ sc_noclear cfg = false ∧ v_mgrshut s = false ∧ v_thr s !! tid = Some t ∧ st_op t = SConnEnd sid ∧ st_pc t = VEnd ∧
-  v_thr s !! tid' = Some t' ∧ acquirer t' sid n k z ∧ st_pc t' = VFin (SResp true None) ∧ slive s n k ∧ ¬ expiry_pending s n k ∧
-  add_after_destroy sid (v_trace s) = true.
+Theorem C06_leak_refuted : T_C06_leak_refuted.
 Proof.
   exists (SvCfg false true), (vrun (SvCfg false true) leak_sched), 1000%nat, (SThread (SConnEnd w_sid) VEnd None), w_sid,
     1%nat, (SThread (STry w_sid w_n w_k 1 None) (VFin (SResp true None)) (Some ECtxCanceled)), w_n, w_k, 1.
@@ -145,31 +150,24 @@ Proof.
   - vm_compute. reflexivity.
 Qed.
 
-(** ** the no-clear race: DestroySession's "session holds nothing" check and the deletion are two critical sections;
-    an AddLock between them is deleted from the session table and the state file while the hold stays.
-    NOT an instance of F-LEAK (the entry is written BEFORE the destroy). *)
+(** ** the former no-clear race (F-NOCLEAR-RACE, repaired in the code by DestroySessionIfEmpty): the "session holds nothing"
+    check and the deletion are ONE critical section now. The schedule that used to delete an entry written between the
+    two (AddLock between check and delete) now ends with the entry listed: the check-and-delete at VDsNoClear removes
+    the still empty session and returns; the later AddLock re-creates the session entry. *)
 Definition ncrace_sched : list sitem :=
   [VConnect w_sid; VCall 1 (STry w_sid w_n w_k 1 None); VRun 1;      (* granted, before AddLock *)
-   VConnEnd w_sid; VRun 1000; VRun 1000;                             (* flag; no-clear check: the session lists nothing -> go on to destroy *)
-   VRun 1].                                                          (* AddLock; locked=true *)
-                                                                     (* next: VRun 1000 = sessionMgr.DestroySession *)
-Theorem C06_noclear_refuted : ∃ cfg s tid t sid c,
-  vreach cfg s ∧ sc_noclear cfg = true ∧ v_thr s !! tid = Some t ∧ st_op t = SConnEnd sid ∧
-  entry_of s sid c ∧ slive s (cl_name c) (cl_key c) ∧
-  let s' := vstep cfg s (VRun tid) in
-  ¬ entry_of s' sid c ∧ sv_file s' = Some [] ∧ slive s' (cl_name c) (cl_key c) ∧ add_after_destroy sid (v_trace s') = false.
+   VConnEnd w_sid; VRun 1000; VRun 1000;                             (* flag; DestroySessionIfEmpty: empty -> deleted, returns *)
+   VRun 1;                                                           (* AddLock; locked=true *)
+   VRun 1000].                                                       (* nothing left to run: the goroutine has returned *)
+Example C06_noclear_race_closed :
+  let cfg := SvCfg true true in let s := vrun cfg ncrace_sched in
+  vreach cfg s ∧ (st_pc <$> v_thr s !! 1000%nat) = Some VEnd ∧
+  entry_of s w_sid (Clock w_n w_k 1) ∧ slive s w_n w_k ∧ sv_file s = Some [(w_sid, [Clock w_n w_k 1])].
 Proof.
-  exists (SvCfg true true), (vrun (SvCfg true true) ncrace_sched), 1000%nat, (SThread (SConnEnd w_sid) VDsDestroy None), w_sid,
-    (Clock w_n w_k 1).
   cbv zeta. split_and!.
   - apply vrun_reach. vm_compute. reflexivity.
-  - reflexivity.
   - vm_compute. reflexivity.
-  - reflexivity.
   - exists [Clock w_n w_k 1]. split; [vm_compute; reflexivity|apply elem_of_list_here].
-  - exists (ALock 1 [w_k] []). split; [vm_compute; reflexivity|]. simpl. apply elem_of_list_here.
-  - intros (l & Hl & _). vm_compute in Hl. discriminate.
-  - vm_compute. reflexivity.
   - exists (ALock 1 [w_k] []). split; [vm_compute; reflexivity|]. simpl. apply elem_of_list_here.
   - vm_compute. reflexivity.
 Qed.
